@@ -279,6 +279,10 @@ func (l *listener) Stop() error {
 	}
 	for conn := range conns {
 		conn.Close()
+		// removeConn ignores these conns as the registry is already cleared,
+		// so count them as destroyed here.
+		l.stats.CxDestroyTotal.Inc()
+		l.stats.CxActive.Dec()
 	}
 	<-l.done
 	return nil
